@@ -13,8 +13,10 @@
 (* (context = parent operator and side).  Two variants:                    *)
 (*   "pinned"    the rules as implemented (with_parens, with_parens_liberal*)
 (*               and the per-operator closures of pretty_print_binop in    *)
-(*               typed_ast.rs; the conversion operator, the base of a      *)
-(*               field access, the callee of a call never parenthesise;    *)
+(*               typed_ast.rs; the conversion operator parenthesises a     *)
+(*               conditional and, on the right, a conversion; the base of  *)
+(*               a field access and the callee of a call go through        *)
+(*               with_parens (since the fixes ec9ff21, 199d4b4);           *)
 (*               the temperature sugar  x °C ,  x -> °C  counts as a call),*)
 (*   "repaired"  the pinned table minus every entry whose printed form     *)
 (*               binds less tightly than the context needs (the minimal    *)
@@ -104,9 +106,11 @@ Contexts == {"neg", "not", "fact", "powL", "powuL", "powR", "mulL", "mulR", "div
 (*   Div   left: Power and Mul bare, else liberal; right: Power bare, else liberal    *)
 (*   Add   both sides:    Power, Mul, Add bare, else liberal                          *)
 (*   Sub   both sides:    Power, Mul bare, else liberal                               *)
-(*   ConvertTo: "never needs parens, it has the lowest precedence"                    *)
+(*   ConvertTo: left: a conditional in parens; right: a conditional or a conversion   *)
+(*              in parens; everything else bare (lowest precedence, left-associative) *)
 (*   Power, comparisons, &&, ||, unary operators, if: with_parens                     *)
-(*   field access, callable call, arguments, elements, fields, interpolations: bare   *)
+(*   base of a field access, callee of a callable call: with_parens                   *)
+(*   arguments, elements, fields, interpolations: bare                                *)
 (*   temperature sugar: with_parens_liberal                                           *)
 Products == {"fused", "fusedid", "mul"}
 Powers == {"pow", "powu"}
@@ -118,7 +122,10 @@ PinnedBare(ctx) ==
     [] ctx \in {"addL", "addR"} -> Atomic \cup Products \cup Powers \cup {"add"}
     [] ctx \in {"subL", "subR"} -> Atomic \cup Products \cup Powers
     [] ctx \in {"tjux", "tconv"} -> Atomic \cup {"fused"}
-    [] ctx \in {"convL", "convR", "callee", "fieldbase", "arg"} -> Classes
+    [] ctx = "convL" -> Classes \ {"if"}
+    [] ctx = "convR" -> Classes \ {"if", "conv"}
+    [] ctx \in {"callee", "fieldbase"} -> Atomic
+    [] ctx = "arg" -> Classes
 
 \* grammar level (Grammar.tla: LevelOf) at which each class is PRINTED
 PrintedLevel(c) ==
@@ -439,10 +446,12 @@ UsedDiff(ctx, t) ==
 (* Decorators: <<"metric_prefixes">> <<"binary_prefixes">> <<"abbreviation">>                 *)
 (*   <<"aliases", <<<<name, accepts>>, ...>>>> (accepts "" | short | long | both | none)      *)
 (*   <<"name", chars>> <<"url", chars>> <<"description", chars>>                              *)
-(* Variant "pinned" = as implemented; "repaired" = decorator strings quoted and escaped like  *)
-(* string literals, no annotation where none can be written (polymorphic let, implicit        *)
-(* dimension), one name for a dimension with several, fractional exponents of annotations in  *)
-(* parentheses, type parameters of struct definitions echoed.                                 *)
+(* Variant "pinned" = as implemented (since cb8c768, 30f8317, eb926bd: decorator strings      *)
+(* quoted and escaped like string literals, fractional exponents of annotations in            *)
+(* parentheses, type parameters of struct definitions echoed); "repaired" = in addition no    *)
+(* annotation where none can be written (polymorphic let, implicit dimension), one name for   *)
+(* a dimension with several, and exponents of annotations spelled as inferred types spell     *)
+(* them (so that the echo of the echo is the same text).                                      *)
 None == <<"none">>
 Kw(w) == Pc("kw", w, w)
 Colon == Pc("colon", "", ":")
@@ -473,7 +482,7 @@ PrintAnn(v, T) ==
     [] T[1] = "tpow" ->
          IF v = "pinned"
          THEN PrintAnnW(v, T[2]) \o Pc("pow", "", "^")
-              \o (IF T[3] > 0 THEN RatPieces(T[3], T[4]) ELSE LPp \o RatPieces(T[3], T[4]) \o RPp)      \* X^2  X^1/2  X^(-2)
+              \o (IF T[3] > 0 /\ T[4] = 1 THEN RatPieces(T[3], T[4]) ELSE LPp \o RatPieces(T[3], T[4]) \o RPp)   \* X^2  X^(1/2)  X^(-2)
          ELSE PrintAnnW(v, T[2]) \o ExponentPieces(T[3], T[4])                                        \* as inferred types are echoed
     [] T[1] = "tbool" -> IdP("Bool")
     [] T[1] = "tstring" -> IdP("String")
@@ -531,7 +540,7 @@ DecoratorPieces(v, d) ==
                             \o Join([i \in 1..Len(d[2]) |-> IdP(d[2][i][1]) \o (IF d[2][i][2] = "" THEN << >> ELSE Colon \o WS \o IdP(d[2][i][2]))], Pc("comma", "", ", "))
                             \o RPp
      [] d[1] \in {"name", "url", "description"} ->
-          Pc("deco", d[1], "@" \o d[1]) \o LPp \o (IF v = "pinned" THEN Pc("raw", "", RawText(d[2])) ELSE QuotedPieces(d[2])) \o RPp)
+          Pc("deco", d[1], "@" \o d[1]) \o LPp \o QuotedPieces(d[2]) \o RPp)        \* quoted and escaped like a string literal (cb8c768)
   \o NL
 RECURSIVE DecoratorsPieces(_, _)
 DecoratorsPieces(v, ds) == IF ds = << >> THEN << >> ELSE DecoratorPieces(v, Head(ds)) \o DecoratorsPieces(v, Tail(ds))
@@ -554,7 +563,7 @@ PrintStmt(v, s) ==
                          \o (IF s[5] = None THEN << >> ELSE WS \o Assign \o WS \o PrintExpr(v, s[5][2]))
     [] s[1] = "sdim" -> Kw("dimension") \o WS \o IdP(s[2])
                         \o (IF s[3] = << >> THEN << >> ELSE WS \o Assign \o WS \o Join(PrintAnnSeq(v, s[3]), WS \o Assign \o WS))
-    [] s[1] = "sstruct" -> Kw("struct") \o WS \o IdP(s[2]) \o (IF v = "pinned" THEN << >> ELSE TParamPieces(s[3])) \o WS \o Pc("lbrace", "", "{")
+    [] s[1] = "sstruct" -> Kw("struct") \o WS \o IdP(s[2]) \o TParamPieces(s[3]) \o WS \o Pc("lbrace", "", "{")
                            \o (IF s[4] = << >> THEN << >>
                                ELSE WS \o Join([i \in 1..Len(s[4]) |-> IdP(s[4][i][1]) \o Colon \o WS \o RtPieces(v, s[4][i][2], FALSE)], CommaSp) \o WS)
                            \o Pc("rbrace", "", "}")
